@@ -62,7 +62,10 @@ func reparse(tr *parse.Tree, name, text string) string {
 	if !ok || b.pan != nil {
 		return "" // the fresh parse is judged by parseOne
 	}
-	if a != b {
+	// (which of two missing statements an error names first is a matter of map order inside one parse; the verdict and
+	// the place are not)
+	loc := func(e string) string { return locRe.FindString(e) }
+	if a.root != b.root || (a.err == "") != (b.err == "") || loc(a.err) != loc(b.err) {
 		return fmt.Sprintf("text %q: a new Tree gives (error %q, root %v), a Tree that has parsed other texts before gives (error %q, root %v)", text, b.err, b.root, a.err, a.root)
 	}
 	return ""
@@ -445,7 +448,7 @@ var total = fw.Register(&fw.Prop[Case]{
 		"quoted string, escape, comment, concatenation or block); the same with a byte flipped / deleted / doubled or a hostile fragment (NUL, 0xFF, CR, FF, quotes, comment openers) inserted; " +
 		"unbalanced braces up to depth 200; fragment soups; oracle: returns within a watchdog, no panic, nil error implies a root statement, a non-nil error names the input and a line:column " +
 		"inside it, and the number of goroutines inside parse.(*lexer).run returns to its pre-call value; in a quarter of the cases the texts (all prefixes, or the text, a second text and the text again) " +
-		"are also parsed one after the other with one Tree object, and every outcome equals that of a new Tree; non-trivial = the text ends inside a token/string/comment/block or is rejected",
+		"are also parsed one after the other with one Tree object, and every outcome (verdict, and for an error the place it names) equals that of a new Tree; non-trivial = the text ends inside a token/string/comment/block or is rejected",
 	Gen: genCase, Check: checkCase,
 	MinLabel: []string{"all-prefixes", "end:word", "end:quoted", "end:escape", "end:block-comment", "end:line-comment", "end:open-block", "rejected", "accepted"},
 })
